@@ -249,7 +249,108 @@ def rule_r4(ctx, sf: SqlFacts) -> RuleResult:
     return rr
 
 
+SHARED_FILE_CLASSES = {"DB", "WAL", "SHM", "JOURNAL", "GLOB"}
+
+
+def rule_r5(ctx) -> RuleResult:
+    """A worker that finishes must not take files away from the workers still running: outside
+    create_db's restore branch (C11 / C20.R2) the database file and its -wal/-shm side files are
+    deleted only when the database is a private one in the temporary directory.  (Unlinking the
+    -wal of a database other connections still have open discards their committed pages.)"""
+    from . import c11
+
+    rr = RuleResult("C20.R5", "database files are deleted only for private temp-dir databases", min_instances=1)
+    n_sites = 0
+    for dotted, m, f in ctx.index.all_functions():
+        if dotted == "core.Wtp.create_db" or not dotted.startswith("core."):
+            continue
+        paths = c11.Paths(f)
+
+        def visit(stmts, guarded):
+            nonlocal n_sites
+            for st in stmts:
+                if isinstance(st, ast.If):
+                    t = unparse(st.test)
+                    g = guarded or ("gettempdir" in t and "samefile" in t and not (isinstance(st.test, ast.UnaryOp)))
+                    for ev in c11._path_events(paths, st.test):
+                        judge(ev, guarded)
+                    visit(st.body, g)
+                    visit(st.orelse, guarded)
+                    continue
+                if isinstance(st, (ast.For, ast.While, ast.With, ast.Try)):
+                    for fld in ("body", "orelse", "finalbody"):
+                        visit(getattr(st, fld, []) or [], guarded)
+                    for h in getattr(st, "handlers", []) or []:
+                        visit(h.body, guarded)
+                    continue
+                if isinstance(st, (ast.FunctionDef, ast.AsyncFunctionDef, ast.ClassDef)):
+                    continue
+                for ev in c11._path_events(paths, st):
+                    judge(ev, guarded)
+
+        def judge(ev, guarded):
+            nonlocal n_sites
+            op, a, b, n = ev
+            if op != "delete" or not (a & SHARED_FILE_CLASSES):
+                return
+            n_sites += 1
+            if guarded:
+                rr.ok(dotted, unparse(n)[:60] + " under the temp-dir test", {"fn": dotted, "deletes": sorted(a)})
+            else:
+                rr.bad(Finding("C20.R5", m.relpath, dotted, unparse(n)[:80],
+                               "deletes {} of the database without testing that it is a private temp-dir database: another worker "
+                               "connected to the same file loses the pages in the write-ahead log / its file".format("/".join(sorted(a & SHARED_FILE_CLASSES))),
+                               n.lineno))
+
+        visit(f.body, False)
+    if n_sites == 0:
+        raise AnalysisError("no deletion of database files found outside create_db (close_db_conn's temp-dir cleanup confirmed by hand)")
+    return rr
+
+
+_BUSY_RE = __import__("re").compile(r"(?i)pragma\s+busy_timeout\s*=\s*(\d+)")
+
+
+def rule_r6(ctx) -> RuleResult:
+    """Workers wait for each other's short write transactions through SQLite's busy handler
+    (python default 5 s).  Nothing in the package may shorten that wait."""
+    rr = RuleResult("C20.R6", "the busy timeout of the shared connection is never lowered below sqlite3's default", min_instances=1)
+    assert _BUSY_RE.search("PRAGMA busy_timeout = 60;").group(1) == "60"  # positive control of the matcher
+    n_connect = 0
+    for dotted, m, f in ctx.index.all_functions():
+        for n in walk_no_nested(f):
+            if isinstance(n, ast.Constant) and isinstance(n.value, str):
+                for mm in _BUSY_RE.finditer(n.value):
+                    ms = int(mm.group(1))
+                    if ms < 5000:
+                        rr.bad(Finding("C20.R6", m.relpath, dotted, mm.group(0),
+                                       "busy_timeout is set to {} ms (sqlite3's default is 5000 ms): a worker whose write meets another "
+                                       "worker's write transaction for longer than that fails with 'database is locked'".format(ms), n.lineno))
+                    else:
+                        rr.ok(dotted, mm.group(0))
+            if isinstance(n, ast.Call) and unparse(n.func) == "sqlite3.connect":
+                n_connect += 1
+                bad = None
+                for kw in n.keywords:
+                    if kw.arg == "timeout":
+                        if isinstance(kw.value, ast.Constant) and isinstance(kw.value.value, (int, float)) and kw.value.value >= 5:
+                            continue
+                        bad = unparse(kw.value)
+                if len(n.args) >= 2:
+                    a = n.args[1]
+                    if not (isinstance(a, ast.Constant) and isinstance(a.value, (int, float)) and a.value >= 5):
+                        bad = unparse(a)
+                if bad is not None:
+                    rr.bad(Finding("C20.R6", m.relpath, dotted, unparse(n)[:80],
+                                   "the connection is opened with timeout={} (default 5 s)".format(bad), n.lineno))
+                else:
+                    rr.ok(dotted, unparse(n)[:60] + " keeps the default busy timeout", {"fn": dotted})
+    if n_connect == 0:
+        raise AnalysisError("sqlite3.connect call vanished")
+    return rr
+
+
 def run(ctx) -> list:
     cg = CallGraph(ctx.index)
     sf = SqlFacts(ctx.index)
-    return [rule_r1(ctx, cg, sf), rule_r2(ctx, cg), rule_r3(ctx, cg, sf), rule_r4(ctx, sf)]
+    return [rule_r1(ctx, cg, sf), rule_r2(ctx, cg), rule_r3(ctx, cg, sf), rule_r4(ctx, sf), rule_r5(ctx), rule_r6(ctx)]
